@@ -7,11 +7,11 @@ package main
 
 import (
 	"bytes"
-	"path/filepath"
 	"encoding/json"
 	"fmt"
 	"net/http"
 	"os"
+	"path/filepath"
 	"sort"
 	"strconv"
 	"strings"
@@ -66,9 +66,9 @@ var modelledPhases = map[string]bool{"normalizeRef": true, "removeUnusedShared":
 
 // extTables: the seeded tables of external functions for one case.
 type extTables struct {
-	dir     string // the bundle on disk (for resolving $refs into auxiliary documents with the real library)
-	rootDoc *spec.Swagger
-	resolve M
+	dir                                       string // the bundle on disk (for resolving $refs into auxiliary documents with the real library)
+	rootDoc                                   *spec.Swagger
+	resolve                                   M
 	mkRef, jsonName, goName, fold, statusText M
 	refTokens                                 M
 	formats                                   map[string]bool
@@ -233,8 +233,8 @@ func knownFormat(f string) bool {
 type phasesCase struct {
 	c      *Case
 	ext    *extTables
-	steps  []any // driver steps
-	after  []any // implementation state after each step
+	steps  []any    // driver steps
+	after  []any    // implementation state after each step
 	next   []string // name of the phase the implementation ran after each step ("" = none)
 	names  []string
 	out    any
